@@ -1,6 +1,9 @@
 package checks
 
 import (
+	"errors"
+	"sync/atomic"
+	"time"
 	"syscall"
 	"sync"
 	"os"
@@ -244,3 +247,48 @@ func getenvInt(name string, def int) int {
 type lockT = sync.Mutex
 
 var syscallQuit = syscall.SIGQUIT
+
+// decodeTimed runs webp.Decode with a generous watchdog (decoding a small picture takes
+// microseconds; 60 s, then once more 120 s, is a liveness check, not a performance verdict).
+// hung=true means both attempts failed to return.
+func decodeTimed(b []byte) (m image.Image, err error, hung bool) {
+	if hangSeen.Load() {
+		return nil, errAfterHang, false
+	}
+	defer func() {
+		if hung {
+			hangSeen.Store(true)
+		}
+	}()
+	for _, d := range []time.Duration{60 * time.Second, 120 * time.Second} {
+		type res struct {
+			m   image.Image
+			err error
+			p   any
+		}
+		ch := make(chan res, 1)
+		go func() {
+			defer func() {
+				if r := recover(); r != nil {
+					ch <- res{nil, nil, r}
+				}
+			}()
+			m, err := decode(b)
+			ch <- res{m, err, nil}
+		}()
+		select {
+		case r := <-ch:
+			if r.p != nil {
+				panic(r.p) // re-raise on the caller's goroutine (handled by the case runner)
+			}
+			return r.m, r.err, false
+		case <-time.After(d):
+		}
+	}
+	return nil, nil, true
+}
+
+// hangSeen: once a decode has been confirmed not to return, the remaining cases of the run are
+// not executed (the stuck goroutines keep spinning and would distort everything that follows).
+var hangSeen atomic.Bool
+var errAfterHang = errors.New("skipped: an earlier decode in this run never returned")
